@@ -133,6 +133,10 @@ func Minters(r *rand.Rand, denom string, maxExp int) MinterConfig {
 		start = Epoch.Add(-Dur(r)) // started in the past
 	case 1:
 		start = Epoch.Add(time.Duration(r.Intn(3600)) * time.Second).Add(subMs(r))
+		if r.Intn(2) == 0 {
+			// minting starts days after genesis: blocks and parameter updates happen before it
+			start = Epoch.Add(time.Duration(1+r.Intn(20*24)) * time.Hour).Add(subMs(r))
+		}
 	case 2:
 		start = Epoch.Add(subMs(r))
 	}
